@@ -78,31 +78,110 @@ func isOutput(c Config, ch string) bool {
 	return ch == "join.out"
 }
 
-// CheckLogC19 checks on the step log: every output is closed exactly once, and only after every input
-// was closed and every item had been taken out of the inputs.
+// clocks computes a vector clock for every event of the log: two events are ordered when they share a
+// goroutine or an object (channel, WaitGroup, marked variable), transitively.  hb(a, b) then holds iff
+// event a happens before event b in EVERY interleaving equivalent to this one (so the checks below do
+// not depend on how independent steps happened to be ordered by the scheduler).
+func clocks(log []vsched.Event) (clk [][]int, hb func(a, b int) bool) {
+	ng := 1
+	for _, e := range log {
+		if e.G+1 > ng {
+			ng = e.G + 1
+		}
+		if e.G2+1 > ng {
+			ng = e.G2 + 1
+		}
+	}
+	gclk := make([][]int, ng)
+	for i := range gclk {
+		gclk[i] = make([]int, ng)
+	}
+	oclk := map[string][]int{}
+	clk = make([][]int, len(log))
+	join := func(dst, src []int) {
+		for i := range src {
+			if src[i] > dst[i] {
+				dst[i] = src[i]
+			}
+		}
+	}
+	for i, e := range log {
+		c := make([]int, ng)
+		join(c, gclk[e.G])
+		two := e.Kind == "xfer"
+		if two {
+			join(c, gclk[e.G2])
+		}
+		objs := []string{}
+		switch e.Kind {
+		case "write", "read":
+			for _, n := range strings.Split(e.Ch, ",") {
+				objs = append(objs, "var:"+n)
+			}
+		case "go", "panic":
+		default:
+			objs = append(objs, e.Ch)
+		}
+		for _, o := range objs {
+			if oc, ok := oclk[o]; ok {
+				join(c, oc)
+			}
+		}
+		c[e.G]++
+		if two {
+			c[e.G2]++
+		}
+		clk[i] = c
+		gclk[e.G] = append([]int{}, c...)
+		if two {
+			gclk[e.G2] = append([]int{}, c...)
+		}
+		if e.Kind == "go" {
+			gclk[e.G2] = append([]int{}, c...)
+		}
+		for _, o := range objs {
+			oclk[o] = c
+		}
+	}
+	hb = func(a, b int) bool { return a != b && clk[b][log[a].G] >= clk[a][log[a].G] }
+	return clk, hb
+}
+
+// CheckLogC19 checks on the step log: every output is closed exactly once, and that close happens
+// after (in the happens-before order) the close of every input and after every item was taken out of
+// the inputs.
 func CheckLogC19(c Config, log []vsched.Event) []string {
 	var bad []string
+	_, hb := clocks(log)
+	var inEvents []int
+	inClosed := map[string]bool{}
+	for i, e := range log {
+		if isInput(e.Ch) && (e.Kind == "close" || e.Kind == "recv" || e.Kind == "xfer") {
+			inEvents = append(inEvents, i)
+			if e.Kind == "close" {
+				inClosed[e.Ch] = true
+			}
+		}
+	}
 	total := 0
 	for _, it := range c.Items {
 		total += len(it)
 	}
-	nIn := len(c.Items)
-	closedIn, taken := 0, 0
 	closes := map[string]int{}
-	for _, e := range log {
-		switch e.Kind {
-		case "close":
-			if isInput(e.Ch) {
-				closedIn++
-			} else if isOutput(c, e.Ch) {
-				closes[e.Ch]++
-				if closedIn < nIn || taken < total {
-					bad = append(bad, fmt.Sprintf("%s closed after %d/%d inputs were closed and %d/%d items taken", e.Ch, closedIn, nIn, taken, total))
-				}
-			}
-		case "recv", "xfer":
-			if isInput(e.Ch) {
-				taken++
+	for i, e := range log {
+		if e.Kind != "close" || !isOutput(c, e.Ch) {
+			continue
+		}
+		closes[e.Ch]++
+		if len(inClosed) != len(c.Items) || len(inEvents) != len(c.Items)+total {
+			bad = append(bad, fmt.Sprintf("%s closed although only %d of %d inputs were ever closed / %d of %d items taken",
+				e.Ch, len(inClosed), len(c.Items), len(inEvents)-len(inClosed), total))
+			continue
+		}
+		for _, j := range inEvents {
+			if !hb(j, i) {
+				bad = append(bad, fmt.Sprintf("close of %s is not ordered after %s", e.Ch, log[j].String()))
+				break
 			}
 		}
 	}
